@@ -95,6 +95,18 @@ def main():
         IMGS["ops-paths"] = (img, f)
         jobs.append((exe, img, f, "dir-reader", P, Q, "ops-paths"))
         jobs.append((exe, img, f, "dir-reader-dot", P, Q, "ops-paths"))
+        # an image with more than 512 xattr sets: the descriptor table of the xattr reader spans two metadata blocks
+        from vlib.treegen import E as E_
+        wdx = os.path.join(sd, "imgx")
+        os.makedirs(wdx)
+        specx = [E_(b"x%04d" % i, "fifo", 0o600, xattrs={b"user.n": b"%d" % i, b"user.shared": b"S" * 40}) for i in range(600)]
+        rx, imgx, _a = packcheck.pack(specx, dict(comp="gzip", bs=4096), wdx)
+        if rx is None or rx.rc != 0:
+            raise RuntimeError("cannot build the many-xattr image")
+        f = os.path.join(sd, "ops_manyx.txt")
+        open(f, "w").write("xattr 0\nxattr 512\nxwalk 599 511\nxwalk 511 4294967295\n")
+        IMGS["many-xattr-sets"] = (imgx, f)
+        jobs.append((exe, imgx, f, "xattr-reader", P, Q, "many-xattr-sets"))
         xw = [o for o in ops if o.startswith("xwalk ")] + [o for o in ops if o.startswith("xattr ")]
         f = os.path.join(sd, "ops_xwalk.txt")
         open(f, "w").write("\n".join([xw[1], xw[2]] + [o for o in ops if o.startswith("xattr ")][:2]) + "\n")
